@@ -650,10 +650,30 @@ theorem lG5_done (s s' s'' : CS) (h : round s = some s') (hmu : 12 < mu s') (h' 
   · simp only [Bool.and_eq_true, Bool.or_eq_true, decide_eq_true_eq]
     exact ⟨Or.inl hmu, Or.inl (by omega)⟩
 
+theorem lG5_pol (s s' s'' : CS) (h : round s = some s') (hp : polInv s = true)
+    (hc : mu s' ≤ 32 ∨ ∃ b, s.br = some b ∧ 32 < mu s ∧ s'.br = some (lG5_norm b)) (h' : round s = some s'') :
+    polInv s'' = true := by
+  rw [h] at h'
+  cases h'
+  rcases hc with hle | ⟨b, hb, hmu, hb'⟩
+  · unfold polInv
+    split
+    · simp only [Bool.or_eq_true, decide_eq_true_eq]
+      exact Or.inl hle
+    · rfl
+  · unfold polInv at hp ⊢
+    rw [hb] at hp
+    rw [hb']
+    simp only [Bool.or_eq_true, decide_eq_true_eq, beq_iff_eq] at hp ⊢
+    rcases hp with hp | hp
+    · omega
+    · exact Or.inr hp
+
 /-! ### class 13 -/
 
 theorem lG5_core_13 (s : CS) (h : liveInv s = true) (hc : cls s = 13) :
-    ∃ s', round s = some s' ∧ liveInv s' = true ∧ mu s' < mu s ∧ 12 < mu s' := by
+    ∃ s', round s = some s' ∧ liveInv s' = true ∧ mu s' < mu s ∧ 12 < mu s' ∧
+      (mu s' ≤ 32 ∨ ∃ b, s.br = some b ∧ 32 < mu s ∧ s'.br = some (lG5_norm b)) := by
   obtain ⟨hfwd, w, sub, b, H, hst⟩ := lG5_hyp s h (Or.inl hc)
   have hst : sub.state = .trafficRouting := by
     rcases hst with ⟨_, h⟩ | ⟨h, _⟩ | ⟨h, _⟩ | ⟨h, _⟩
@@ -679,22 +699,29 @@ theorem lG5_core_13 (s : CS) (h : liveInv s = true) (hc : cls s = 13) :
   have hmu := lG5_mu_src s w sub b H
   rw [hst] at hmu
   dsimp only at hmu
-  refine ⟨s', hr, lG5_liveInv_mk s' hf hcfg hbd (by rw [k1]; decide), ?_, ?_⟩ <;> omega
+  refine ⟨s', hr, lG5_liveInv_mk s' hf hcfg hbd (by rw [k1]; decide), by omega, by omega,
+      Or.inr ⟨b, H.hb, by omega, by rw [hs']; rfl⟩⟩
 
 theorem round_cls_13 (s : CS) (h : liveInv s = true) (hc : cls s = 13) :
     ∃ s', round s = some s' ∧ liveInv s' = true ∧ mu s' < mu s := by
-  obtain ⟨s', h1, h2, h3, _⟩ := lG5_core_13 s h hc
+  obtain ⟨s', h1, h2, h3, _, _⟩ := lG5_core_13 s h hc
   exact ⟨s', h1, h2, h3⟩
 
 theorem done_cls_13 (s : CS) (h : liveInv s = true) (_hd : doneInv s = true) (hc : cls s = 13) :
     ∀ s', round s = some s' → doneInv s' = true := by
-  obtain ⟨s', h1, _, _, h4⟩ := lG5_core_13 s h hc
+  obtain ⟨s', h1, _, _, h4, _⟩ := lG5_core_13 s h hc
   exact fun s'' h' => lG5_done s s' s'' h1 h4 h'
+
+theorem pol_cls_13 (s : CS) (h : liveInv s = true) (hp : polInv s = true) (hc : cls s = 13) :
+    ∀ s', round s = some s' → polInv s' = true := by
+  obtain ⟨s', h1, _, _, _, h5⟩ := lG5_core_13 s h hc
+  exact fun s'' h' => lG5_pol s s' s'' h1 hp h5 h'
 
 /-! ### class 14 -/
 
 theorem lG5_core_14 (s : CS) (h : liveInv s = true) (hc : cls s = 14) :
-    ∃ s', round s = some s' ∧ liveInv s' = true ∧ mu s' < mu s ∧ 12 < mu s' := by
+    ∃ s', round s = some s' ∧ liveInv s' = true ∧ mu s' < mu s ∧ 12 < mu s' ∧
+      (mu s' ≤ 32 ∨ ∃ b, s.br = some b ∧ 32 < mu s ∧ s'.br = some (lG5_norm b)) := by
   obtain ⟨hfwd, w, sub, b, H, hst⟩ := lG5_hyp s h (Or.inr (Or.inl hc))
   have hst : sub.state = .metricsAnalysis := by
     rcases hst with ⟨h, _⟩ | ⟨_, h⟩ | ⟨h, _⟩ | ⟨h, _⟩
@@ -715,22 +742,29 @@ theorem lG5_core_14 (s : CS) (h : liveInv s = true) (hc : cls s = 14) :
   have hmu := lG5_mu_src s w sub b H
   rw [hst] at hmu
   dsimp only at hmu
-  refine ⟨s', hr, lG5_liveInv_mk s' hf hcfg hbd (by rw [k1]; decide), ?_, ?_⟩ <;> omega
+  refine ⟨s', hr, lG5_liveInv_mk s' hf hcfg hbd (by rw [k1]; decide), by omega, by omega,
+      Or.inr ⟨b, H.hb, by omega, by rw [hs']; rfl⟩⟩
 
 theorem round_cls_14 (s : CS) (h : liveInv s = true) (hc : cls s = 14) :
     ∃ s', round s = some s' ∧ liveInv s' = true ∧ mu s' < mu s := by
-  obtain ⟨s', h1, h2, h3, _⟩ := lG5_core_14 s h hc
+  obtain ⟨s', h1, h2, h3, _, _⟩ := lG5_core_14 s h hc
   exact ⟨s', h1, h2, h3⟩
 
 theorem done_cls_14 (s : CS) (h : liveInv s = true) (_hd : doneInv s = true) (hc : cls s = 14) :
     ∀ s', round s = some s' → doneInv s' = true := by
-  obtain ⟨s', h1, _, _, h4⟩ := lG5_core_14 s h hc
+  obtain ⟨s', h1, _, _, h4, _⟩ := lG5_core_14 s h hc
   exact fun s'' h' => lG5_done s s' s'' h1 h4 h'
+
+theorem pol_cls_14 (s : CS) (h : liveInv s = true) (hp : polInv s = true) (hc : cls s = 14) :
+    ∀ s', round s = some s' → polInv s' = true := by
+  obtain ⟨s', h1, _, _, _, h5⟩ := lG5_core_14 s h hc
+  exact fun s'' h' => lG5_pol s s' s'' h1 hp h5 h'
 
 /-! ### class 16 -/
 
 theorem lG5_core_16 (s : CS) (h : liveInv s = true) (hc : cls s = 16) :
-    ∃ s', round s = some s' ∧ liveInv s' = true ∧ mu s' < mu s ∧ 12 < mu s' := by
+    ∃ s', round s = some s' ∧ liveInv s' = true ∧ mu s' < mu s ∧ 12 < mu s' ∧
+      (mu s' ≤ 32 ∨ ∃ b, s.br = some b ∧ 32 < mu s ∧ s'.br = some (lG5_norm b)) := by
   obtain ⟨hfwd, w, sub, b, H, hst⟩ := lG5_hyp s h (Or.inr (Or.inr (Or.inl hc)))
   have hst : sub.state = .ready := by
     rcases hst with ⟨h, _⟩ | ⟨h, _⟩ | ⟨_, h⟩ | ⟨h, _⟩
@@ -764,7 +798,8 @@ theorem lG5_core_16 (s : CS) (h : liveInv s = true) (hc : cls s = 16) :
           nextIdx := nextBatchIndex (s.ro.steps.length : Int) ((lG5_c3 s w sub).sub.curIdx + 1),
           state := .init, lastUpdate := .fresh } (by show (lG5_c3 s w sub).sub.curIdx + 1 = _; rw [f1']) rfl
     rw [← hs'] at k1 k2
-    refine ⟨s', hr, lG5_liveInv_mk s' hf hcfg hbd (by rw [k1]; decide), ?_, ?_⟩ <;> omega
+    refine ⟨s', hr, lG5_liveInv_mk s' hf hcfg hbd (by rw [k1]; decide), by omega, by omega,
+      Or.inr ⟨b, H.hb, by omega, by rw [hs']; rfl⟩⟩
   · have hss : stateStep { s.ro with sub := some (lG5_obs sub w) } step (lG5_c3 s w sub) =
         .ok { lG5_c3 s w sub with sub := { (lG5_c3 s w sub).sub with state := .completed, lastUpdate := .fresh } } false := by
       unfold stateStep
@@ -776,17 +811,23 @@ theorem lG5_core_16 (s : CS) (h : liveInv s = true) (hc : cls s = 16) :
       (Or.inr (Or.inr rfl))
     rw [← hs'] at k1 k2
     rw [if_neg (by intro hh; cases hh), if_neg (by intro hh; cases hh)] at k1 k2
-    refine ⟨s', hr, lG5_liveInv_mk s' hf hcfg hbd (by rw [k1]; decide), ?_, ?_⟩ <;> omega
+    refine ⟨s', hr, lG5_liveInv_mk s' hf hcfg hbd (by rw [k1]; decide), by omega, by omega,
+      Or.inr ⟨b, H.hb, by omega, by rw [hs']; rfl⟩⟩
 
 theorem round_cls_16 (s : CS) (h : liveInv s = true) (hc : cls s = 16) :
     ∃ s', round s = some s' ∧ liveInv s' = true ∧ mu s' < mu s := by
-  obtain ⟨s', h1, h2, h3, _⟩ := lG5_core_16 s h hc
+  obtain ⟨s', h1, h2, h3, _, _⟩ := lG5_core_16 s h hc
   exact ⟨s', h1, h2, h3⟩
 
 theorem done_cls_16 (s : CS) (h : liveInv s = true) (_hd : doneInv s = true) (hc : cls s = 16) :
     ∀ s', round s = some s' → doneInv s' = true := by
-  obtain ⟨s', h1, _, _, h4⟩ := lG5_core_16 s h hc
+  obtain ⟨s', h1, _, _, h4, _⟩ := lG5_core_16 s h hc
   exact fun s'' h' => lG5_done s s' s'' h1 h4 h'
+
+theorem pol_cls_16 (s : CS) (h : liveInv s = true) (hp : polInv s = true) (hc : cls s = 16) :
+    ∀ s', round s = some s' → polInv s' = true := by
+  obtain ⟨s', h1, _, _, _, h5⟩ := lG5_core_16 s h hc
+  exact fun s'' h' => lG5_pol s s' s'' h1 hp h5 h'
 
 /-! ### class 17 -/
 
@@ -797,7 +838,8 @@ def lG5_next17 (s : CS) (w : CWl) (sub : Sub) (b : CBr) : CS :=
            br := some (lG5_norm b), mem := (tick s).mem }
 
 theorem lG5_core_17 (s : CS) (h : liveInv s = true) (hc : cls s = 17) :
-    ∃ s', round s = some s' ∧ liveInv s' = true ∧ mu s' < mu s ∧ 12 < mu s' := by
+    ∃ s', round s = some s' ∧ liveInv s' = true ∧ mu s' < mu s ∧ 12 < mu s' ∧
+      (mu s' ≤ 32 ∨ ∃ b, s.br = some b ∧ 32 < mu s ∧ s'.br = some (lG5_norm b)) := by
   obtain ⟨hfwd, w, sub, b, H, hst⟩ := lG5_hyp s h (Or.inr (Or.inr (Or.inr hc)))
   have hst : sub.state = .completed := by
     rcases hst with ⟨h, _⟩ | ⟨h, _⟩ | ⟨h, _⟩ | ⟨_, h⟩
@@ -838,16 +880,21 @@ theorem lG5_core_17 (s : CS) (h : liveInv s = true) (hc : cls s = 17) :
   have hcfg : liveCfg (lG5_next17 s w sub b) = true := by
     rw [t2, ← H.cfg]
     exact lG5_liveCfg_congr _ _ rfl rfl rfl
-  refine ⟨_, hr', lG5_liveInv_mk _ hf' hcfg t1 (by rw [k1]; decide), ?_, ?_⟩ <;> omega
+  exact ⟨_, hr', lG5_liveInv_mk _ hf' hcfg t1 (by rw [k1]; decide), by omega, by omega, Or.inl (by omega)⟩
 
 theorem round_cls_17 (s : CS) (h : liveInv s = true) (hc : cls s = 17) :
     ∃ s', round s = some s' ∧ liveInv s' = true ∧ mu s' < mu s := by
-  obtain ⟨s', h1, h2, h3, _⟩ := lG5_core_17 s h hc
+  obtain ⟨s', h1, h2, h3, _, _⟩ := lG5_core_17 s h hc
   exact ⟨s', h1, h2, h3⟩
 
 theorem done_cls_17 (s : CS) (h : liveInv s = true) (_hd : doneInv s = true) (hc : cls s = 17) :
     ∀ s', round s = some s' → doneInv s' = true := by
-  obtain ⟨s', h1, _, _, h4⟩ := lG5_core_17 s h hc
+  obtain ⟨s', h1, _, _, h4, _⟩ := lG5_core_17 s h hc
   exact fun s'' h' => lG5_done s s' s'' h1 h4 h'
+
+theorem pol_cls_17 (s : CS) (h : liveInv s = true) (hp : polInv s = true) (hc : cls s = 17) :
+    ∀ s', round s = some s' → polInv s' = true := by
+  obtain ⟨s', h1, _, _, _, h5⟩ := lG5_core_17 s h hc
+  exact fun s'' h' => lG5_pol s s' s'' h1 hp h5 h'
 
 end RV.Lemmas.ClosedLoop
